@@ -738,7 +738,12 @@ class Roots:
     def __init__(self):
         self.base = os.path.realpath(os.path.join(BASE, "r%d" % os.getpid()))
         shutil.rmtree(self.base, ignore_errors=True)
-        os.makedirs(self.base)
+        for _ in range(5):
+            try:
+                os.makedirs(self.base, exist_ok=True)
+                break
+            except FileNotFoundError:      # parent removed by a concurrent run between the two mkdir calls
+                time.sleep(0.2)
         self.n = 0
 
     def new(self):
@@ -746,11 +751,8 @@ class Roots:
         return os.path.join(self.base, "s%d" % self.n)
 
     def cleanup(self):
+        # BASE itself stays: removing it races with the start of another C17 run (seed check next to a normal run)
         shutil.rmtree(self.base, ignore_errors=True)
-        try:
-            os.rmdir(BASE)
-        except OSError:
-            pass
 
 
 def cpu_s():
@@ -797,10 +799,10 @@ def run_cases(chk, roots, cases, thorough, jobs=None, offset=0):
         if res["sterm"] is not None:
             sterms.append(res["sterm"])
             smap.append(i)
-    bad = C.coq_eval_cases("C17", "finder", IMPORTS, "finder_case", "check_finder", fterms, shard=max(4, -(-len(fterms) // (4 * jobs))))
+    bad = C.coq_eval_cases("C17", "finder", IMPORTS, "finder_case", "check_finder", fterms, shard=max(4, -(-len(fterms) // (4 * jobs))), timeout=3000)
     for i in bad[:10]:
         chk.disagree("Finder model != ComponentsFileSystemFinder.find / find(all=True) / list", dict(cases[i], base=os.path.join(roots.base, "%d" % (offset + i))))
-    bad = C.coq_eval_cases("C17", "served", IMPORTS, "served_case", "check_served", sterms, shard=max(4, -(-len(sterms) // (4 * jobs))))
+    bad = C.coq_eval_cases("C17", "served", IMPORTS, "served_case", "check_served", sterms, shard=max(4, -(-len(sterms) // (4 * jobs))), timeout=3000)
     for i in bad[:10]:
         chk.disagree("Finder model != staticfiles serve view / collectstatic --dry-run", dict(cases[smap[i]], base=os.path.join(roots.base, "%d" % (offset + smap[i]))))
     phase(chk, "F/X model (coqc, vm_compute)", t0, c0)
@@ -1094,7 +1096,7 @@ def run_valid_cases(chk, roots, n_cfg, n_names, follow_up):
         cases.append((cfg, names))
     shutil.rmtree(root, ignore_errors=True)
     t0, c0 = time.time(), cpu_s()
-    bad = C.coq_eval_cases("C17", "valid", IMPORTS, "valid_case", "check_valid", terms, shard=60)
+    bad = C.coq_eval_cases("C17", "valid", IMPORTS, "valid_case", "check_valid", terms, shard=60, timeout=3000)
     phase(chk, "V model (coqc)", t0, c0)
     for i in bad[:10]:
         chk.disagree("is_path_valid model != ComponentsFileSystemFinder._is_path_valid", {"kind": "valid", "config": cases[i][0], "names": cases[i][1]})
@@ -1134,7 +1136,7 @@ def run_sj_cases(chk, maxlen, nrandom):
             terms.append("(%s, %s)" % (cstr(root), clist(obs)))
             cases.append((root, ps[si:si + 150]))
     t0, c0 = time.time(), cpu_s()
-    bad = C.coq_eval_cases("C17", "sj", IMPORTS, "sj_case", "check_sj", terms, shard=8)
+    bad = C.coq_eval_cases("C17", "sj", IMPORTS, "sj_case", "check_sj", terms, shard=8, timeout=3000)
     phase(chk, "J model (coqc)", t0, c0)
     for i in bad[:10]:
         chk.disagree("safe_join/relpath model != django safe_join / os.path.relpath", {"kind": "sj", "root": cases[i][0], "paths": cases[i][1]})
